@@ -45,8 +45,9 @@ def run(ctx):
         "because the NEO libraries' proof readers do not terminate on truncated input)",
         "byte-level parsing of NEO verification scripts inside VerifyMultiSignatureWitness (only well-formed m-of-n scripts are generated)",
     ]
-    if ctx.run_extract("thresholds", ["lean"], out_lean="Thresholds.lean") is None:
-        return
+    # a translator failure (a threshold site rewritten beyond recognition) is reported by run_extract; the harness and its
+    # property oracle still run so that the report comes with a concrete failing input when there is one
+    ctx.run_extract("thresholds", ["lean"], out_lean="Thresholds.lean")
     ctx.lean_props()
     hbin = ctx.build_harness("hlc")
     drv = ctx.build_driver("drv_lc")
